@@ -282,6 +282,16 @@ pub fn run() {
                     })));
                     "ok".into()
                 }
+                ["phook", ms] => {
+                    // a schedule in which the provision actor is slow: every message it handles takes `ms` milliseconds longer
+                    let ms: u64 = ms.parse().unwrap();
+                    crate::shared_state::verif_actor::set_hook(Some(Box::new(move |actor, _kind| {
+                        if actor == "provision" {
+                            std::thread::sleep(std::time::Duration::from_millis(ms));
+                        }
+                    })));
+                    "ok".into()
+                }
                 ["khook", "off"] => {
                     crate::shared_state::verif_actor::set_hook(None);
                     "ok".into()
